@@ -26,6 +26,7 @@ type Result struct {
 
 func (o *Obligation) query(forCvc5 bool, withModel bool) string {
 	c := o.Ctx
+	relaxed := o.Relaxed
 	var sb strings.Builder
 	if forCvc5 {
 		sb.WriteString("(set-option :produce-models true)\n(set-logic ALL)\n")
@@ -33,14 +34,26 @@ func (o *Obligation) query(forCvc5 bool, withModel bool) string {
 	} else {
 		sb.WriteString(c.prelude())
 	}
-	if c.Mode == ModeInt {
+	if c.Mode == ModeInt && !o.ExpectSat && !relaxed {
 		sb.WriteString(stringAxioms)
 	}
+	// vacuity covers must come back "sat": quantified assumptions (definitional
+	// axioms, quantified invariants) are left out of them, since solvers
+	// answer "unknown" for satisfiable quantified problems.
+	skip := func(s string) bool {
+		return (o.ExpectSat || relaxed) && strings.HasPrefix(s, "(assert") && (strings.Contains(s, "(forall ") || strings.Contains(s, "(exists "))
+	}
 	for _, d := range c.Decls {
+		if skip(d) {
+			continue
+		}
 		sb.WriteString(d)
 		sb.WriteString("\n")
 	}
 	for _, a := range c.Log[:o.Prefix] {
+		if skip(a) {
+			continue
+		}
 		sb.WriteString(a)
 		sb.WriteString("\n")
 	}
@@ -189,6 +202,22 @@ func discharge(o *Obligation, dir string, timeout int, confirm bool) *Result {
 	os.Remove(cfile)
 	if final != nil {
 		return final
+	}
+	if !o.ExpectSat && !strings.Contains(o.Goal, "(forall ") {
+		// Counterexample search: quantified assumptions make solvers answer
+		// "unknown" instead of "sat". Drop them; a model of the weaker problem
+		// is only a candidate and counts solely if it replays on the real code.
+		o.Relaxed = true
+		rfile := base + ".relaxed.smt2"
+		os.WriteFile(rfile, []byte(o.query(false, false)), 0644)
+		r, out, el := runSolver(solvers[0], rfile, timeout)
+		res.TimeS += el
+		if r == "sat" {
+			res.Model = out
+			res.Query = rfile
+			return finish("refuted-candidate", "z3-new", 0, reason+"; relaxed (quantifier-free) problem: sat")
+		}
+		o.Relaxed = false
 	}
 	return finish("undecided", "", 0, reason)
 }
